@@ -26,25 +26,24 @@ type c02Case struct {
 
 var c02Configs = []sut.Config{
 	{},
+	{BufCap: 1, SndBuf: 4096},
 	{Password: "s3cret", DisableSlave: true},
+	{BufCap: 5, SndBuf: 4096},
 	{MaxLen: 256 * 1024},
+	{BufCap: 64, SndBuf: 4096},
 	{ServerConns: 2, Password: "pw"},
-}
-
-func c02SmallCaps() []int {
-	all := []int{1, 2, 3, 5, 8, 16, 64, 4096}
-	seed := envInt("VERIF_SEED", 1) + envInt("VERIF_SHARD", 0)
-	return []int{all[seed%len(all)], all[(seed/3+5)%len(all)]}
+	{BufCap: 2, SndBuf: 4096},
+	{},
+	{BufCap: 16, SndBuf: 4096},
+	{BufCap: 3, SndBuf: 4096},
+	{BufCap: 4096, SndBuf: 4096},
+	{BufCap: 8, SndBuf: 4096},
 }
 
 func c02Gen(t *rapid.T) c02Case {
 	var c c02Case
-	small := rapid.IntRange(0, 9).Draw(t, "variant") < 4
-	if small {
-		c.Cfg = sut.Config{BufCap: rapid.SampledFrom(c02SmallCaps()).Draw(t, "bufcap"), SndBuf: 4096}
-	} else {
-		c.Cfg = c02Configs[rapid.IntRange(0, len(c02Configs)-1).Draw(t, "cfg")]
-	}
+	c.Cfg = rapid.SampledFrom(shardPick(c02Configs, 3)).Draw(t, "cfg")
+	small := c.Cfg.BufCap > 0
 	maxLong := 3000
 	if !small {
 		maxLong = rapid.SampledFrom([]int{2000, 70000, 300000}).Draw(t, "maxlong")
